@@ -1,7 +1,7 @@
 #!/bin/bash
 # usage: run_all.sh quick|thorough  - runs every registered check on the current /repo tree and validates the evidence files
 TIER=${1:-quick}
-cd /verif
+V="$(cd "$(dirname "${BASH_SOURCE[0]}")/.." && pwd)"; cd "$V"; export V
 [ -z "$(git -C /repo status --porcelain)" ] || { echo "/repo working tree not clean"; exit 2; }
 ./check --build || exit 2
 fail=0
@@ -14,16 +14,16 @@ for id in $(python3 -c "import json;print(' '.join(c['property_id'] for c in jso
   [ $rc -ne 0 ] && fail=1
 done
 python3-vt - <<'PY'
-import json,jsonschema,glob
+import json,jsonschema,glob,os
 sch=json.load(open('/root/.vp/EVIDENCE.schema.json'))
 bad=0
-for f in sorted(glob.glob('/verif/evidence/*.json')):
+for f in sorted(glob.glob(os.environ['V']+'/evidence/*.json')):
     try:
         jsonschema.validate(json.load(open(f)),sch)
     except Exception as e:
         bad+=1; print('INVALID',f,str(e)[:200])
 print('evidence files valid' if not bad else f'{bad} invalid evidence files')
-jsonschema.validate(json.load(open('/verif/MANIFEST.json')), json.load(open('/root/.vp/MANIFEST.schema.json')))
+jsonschema.validate(json.load(open(os.environ['V']+'/MANIFEST.json')), json.load(open('/root/.vp/MANIFEST.schema.json')))
 print('manifest valid')
 PY
 exit $fail
